@@ -90,6 +90,25 @@ def _prov_list(v) -> list:
     return ["?"]
 
 
+class _Lazy:
+    """Source text of an AST node, rendered only if a key/label is really needed."""
+    __slots__ = ("node", "_s")
+
+    def __init__(self, node):
+        self.node = node
+        self._s = None
+
+    def __str__(self):
+        if self._s is None:
+            self._s = ast.unparse(self.node)
+        return self._s
+
+    __repr__ = __str__
+
+    def __format__(self, spec):
+        return str(self)
+
+
 def is_strlike(v: V) -> bool:
     return isinstance(v, Str) or (isinstance(v, Const) and isinstance(v.v, str)) or \
         (isinstance(v, Sym) and v.hint == "str")
@@ -258,7 +277,7 @@ class ExprMixin(CallMixin):
         return d
 
     def ev_IfExp(self, e: ast.IfExp, env, module):
-        if self.truthy(self.eval(e.test, env, module), ast.unparse(e.test)):
+        if self.truthy(self.eval(e.test, env, module), e.test):
             return self.eval(e.body, env, module)
         return self.eval(e.orelse, env, module)
 
@@ -268,7 +287,7 @@ class ExprMixin(CallMixin):
             v = self.eval(x, env, module)
             if i == len(e.values) - 1:
                 return v
-            t = self.truthy(v, ast.unparse(x))
+            t = self.truthy(v, x)
             if isinstance(e.op, ast.And) and not t:
                 return v
             if isinstance(e.op, ast.Or) and t:
@@ -278,7 +297,7 @@ class ExprMixin(CallMixin):
     def ev_UnaryOp(self, e: ast.UnaryOp, env, module):
         v = self.resolve_alt(self.eval(e.operand, env, module))
         if isinstance(e.op, ast.Not):
-            return Const(not self.truthy(v, ast.unparse(e.operand)))
+            return Const(not self.truthy(v, e.operand))
         if isinstance(v, Const) and isinstance(v.v, (int, float)):
             if isinstance(e.op, ast.USub):
                 return Const(-v.v)
@@ -484,7 +503,7 @@ class ExprMixin(CallMixin):
             loc = dict(env)
             self.assign(g.target, item, loc, module)
             for c in g.ifs:
-                if not self.truthy(self.eval(c, loc, module), ast.unparse(c)):
+                if not self.truthy(self.eval(c, loc, module), c):
                     return
             k = self.eval(e.key, loc, module)
             v = self.eval(e.value, loc, module)
@@ -511,7 +530,7 @@ class ExprMixin(CallMixin):
             for item in items:
                 loc = dict(env)
                 self.assign(g.target, item, loc, module)
-                if all(self.truthy(self.eval(c, loc, module), ast.unparse(c)) for c in g.ifs):
+                if all(self.truthy(self.eval(c, loc, module), c) for c in g.ifs):
                     out.append(self.eval(e.elt, loc, module))
             l = PyList(out)
             l.created_in = self._frame_id()
@@ -528,7 +547,7 @@ class ExprMixin(CallMixin):
             filtered = False
             for c in g.ifs:
                 filtered = True
-                if not self.truthy(self.eval(c, loc, module), ast.unparse(c)):
+                if not self.truthy(self.eval(c, loc, module), c):
                     l = PyList([])
                     l.created_in = self._frame_id()
                     return l
@@ -694,7 +713,7 @@ class ExprMixin(CallMixin):
         for op, rhs_e in zip(e.ops, e.comparators):
             right = self.eval(rhs_e, env, module)
             self.cur_where = module.loc(e)
-            r = self.compare(op, left, right, ast.unparse(e))
+            r = self.compare(op, left, right, _Lazy(e))
             if not r:
                 return FALSE
             left = right
